@@ -3,6 +3,7 @@ package main
 import (
 	"encoding/json"
 	"fmt"
+	"sync/atomic"
 
 	"github.com/biogo/hts/bgzf"
 	"github.com/biogo/hts/bgzf/index"
@@ -128,7 +129,7 @@ func c17one(c *Ctx, grid []bgzf.Offset, cas c17case) {
 }
 
 func c17(c *Ctx) {
-	c.Rule = "offsets O={(0,0),(0,1),(1,0),(1,1),(2,0),(3,0)}; chunks = all Begin<=End pairs over O (21, incl. zero-length); all lists of length 0..4 (thorough 0..5) with non-decreasing Begin (every order among equal Begins), plus all lists of length 5..6 (thorough 6..8) over the 4-offset alphabet {(0,0),(0,1),(1,0),(2,0)}; strategies Identity, Adjacent, Squash, Compressor(n) for n in {0,1,2,65536}. Oracle on the grid of elementary intervals between consecutive offsets: output sorted by Begin; every covered input interval covered by the output; Adjacent: exactly the input's intervals and End_i < Begin_{i+1}; Squash: the single enclosing chunk; Compressor(n): no neighbours with End.File+n >= Begin.File; idempotence. Non-trivial: lists with >= 2 chunks."
+	c.Rule = "offsets O={(0,0),(0,1),(1,0),(1,1),(2,0),(3,0)}; chunks = all Begin<=End pairs over O (21, incl. zero-length); all lists of length 0..4 (thorough 0..7) with non-decreasing Begin (every order among equal Begins), plus all lists of length 5..6 (thorough 8..10) over the 4-offset alphabet {(0,0),(0,1),(1,0),(2,0)}; strategies Identity, Adjacent, Squash, Compressor(n) for n in {0,1,2,65536}. Oracle on the grid of elementary intervals between consecutive offsets: output sorted by Begin; every covered input interval covered by the output; Adjacent: exactly the input's intervals and End_i < Begin_{i+1}; Squash: the single enclosing chunk; Compressor(n): no neighbours with End.File+n >= Begin.File; idempotence. Non-trivial: lists with >= 2 chunks."
 	grid6 := []bgzf.Offset{{0, 0}, {0, 1}, {1, 0}, {1, 1}, {2, 0}, {3, 0}}
 	grid4 := []bgzf.Offset{{0, 0}, {0, 1}, {1, 0}, {2, 0}}
 	strategies := []c17case{{Strategy: "Identity"}, {Strategy: "Adjacent"}, {Strategy: "Squash"}, {Strategy: "Compressor", Near: 0}, {Strategy: "Compressor", Near: 1}, {Strategy: "Compressor", Near: 2}, {Strategy: "Compressor", Near: 1 << 16}}
@@ -148,11 +149,21 @@ func c17(c *Ctx) {
 				all = append(all, [4]int{int(b.File), int(b.Block), int(e.File), int(e.Block)})
 			}
 		}
-		var lists [][][4]int
-		var rec func(cur [][4]int)
-		rec = func(cur [][4]int) {
+		// depth-first over the lists, one task per first chunk (plus the empty list), nothing
+		// materialised: every list of length minLen..maxLen is run through every strategy
+		var nlists, nnt int64
+		var rec func(cur [][4]int, nl, nt *int64)
+		rec = func(cur [][4]int, nl, nt *int64) {
 			if len(cur) >= minLen {
-				lists = append(lists, append([][4]int(nil), cur...))
+				*nl++
+				if len(cur) >= 2 {
+					*nt++
+				}
+				for _, s := range strategies {
+					cas := s
+					cas.Chunks = cur
+					c17one(c, grid, cas)
+				}
 			}
 			if len(cur) == maxLen {
 				return
@@ -164,30 +175,42 @@ func c17(c *Ctx) {
 						continue
 					}
 				}
-				rec(append(cur, ch))
+				rec(append(cur, ch), nl, nt)
 			}
 		}
-		rec(nil)
-		parallel(len(lists), func(i int) {
-			for _, s := range strategies {
-				cas := s
-				cas.Chunks = lists[i]
-				c17one(c, grid, cas)
+		// tasks: every legal prefix of length 2 (or shorter lists themselves)
+		var prefixes [][][4]int
+		prefixes = append(prefixes, nil)
+		for _, a := range all {
+			prefixes = append(prefixes, [][4]int{a})
+		}
+		parallel(len(prefixes), func(i int) {
+			var nl, nt int64
+			p := prefixes[i]
+			if len(p) == 0 {
+				// the empty list only (its extensions are the other tasks)
+				if minLen == 0 {
+					nl++
+					for _, s := range strategies {
+						cas := s
+						c17one(c, grid, cas)
+					}
+				}
+			} else if maxLen >= 1 {
+				buf := make([][4]int, 1, maxLen+1)
+				buf[0] = p[0]
+				rec(buf, &nl, &nt)
 			}
+			atomic.AddInt64(&nlists, nl)
+			atomic.AddInt64(&nnt, nt)
 		})
-		c.Eval(int64(len(lists) * len(strategies)))
-		var nt int64
-		for _, l := range lists {
-			if len(l) >= 2 {
-				nt++
-			}
-		}
-		c.NontrivialN(nt * int64(len(strategies)))
-		c.AddCount("lists", int64(len(lists)))
+		c.Eval(nlists * int64(len(strategies)))
+		c.NontrivialN(nnt * int64(len(strategies)))
+		c.AddCount("lists", nlists)
 	}
 	if c.Thorough {
-		enum(grid6, 0, 5)
-		enum(grid4, 6, 8)
+		enum(grid6, 0, 7)
+		enum(grid4, 8, 10)
 	} else {
 		enum(grid6, 0, 4)
 		enum(grid4, 5, 6)
